@@ -1,6 +1,7 @@
 #![allow(dead_code, unused_imports)]
 mod c08;
 mod c09;
+mod c11;
 mod c12;
 mod c13;
 mod c14;
@@ -19,7 +20,7 @@ use sim::{SimConfig, Strategy};
 use world::{ShellSpec, World};
 
 fn props() -> Vec<Box<dyn Prop>> {
-    vec![Box::new(c08::C08), Box::new(c09::C09), Box::new(c12::C12), Box::new(c13::C13), Box::new(c14::C14), Box::new(c15::C15), Box::new(c18::C18)]
+    vec![Box::new(c08::C08), Box::new(c09::C09), Box::new(c11::C11), Box::new(c12::C12), Box::new(c13::C13), Box::new(c14::C14), Box::new(c15::C15), Box::new(c18::C18)]
 }
 
 fn find_prop(id: &str) -> Option<Box<dyn Prop>> {
